@@ -42,6 +42,9 @@ type Method struct {
 	File       string   `json:"file,omitempty"`  // other file of the same package ("" = the controller's file)
 	Body       string   `json:"-"`               // method body override (runtime seam)
 	Recv       string   `json:"recv,omitempty"`  // receiver type override (methods on a same-named non-controller struct)
+	// Style varies how the same annotations are written: 0 = canonical order; 1 = reversed order, a leading free-text
+	// line and a description on every parameter annotation (the meaning is unchanged)
+	Style int `json:"style,omitempty"`
 }
 
 // Controller is one controller struct.
@@ -141,8 +144,23 @@ func MethodComment(m Method) []string {
 		l = append(l, line)
 	}
 	l = append(l, m.Extra...)
+	if m.Style == 1 {
+		gen := l[len(m.Lead):]
+		out := append([]string(nil), m.Lead...)
+		out = append(out, "// Free text first: what the method does (ünïcode)")
+		for i := len(gen) - 1; i >= 0; i-- {
+			line := gen[i]
+			if annParamRe.MatchString(line) {
+				line += " the value the caller passes"
+			}
+			out = append(out, line)
+		}
+		return out
+	}
 	return l
 }
+
+var annParamRe = regexp.MustCompile(`^// @(Path|Query|Header|FormField|Body)\(`)
 
 func renderMethod(sb *strings.Builder, c Controller, m Method) {
 	for _, l := range MethodComment(m) {
